@@ -40,6 +40,7 @@ MaxF == p.maxF         \* <<m1, m2>> unscaled caps; <<0, 0>> = no cap
 ApplyBias == p.applyBias
 Sub == p.sub           \* <<BOOLEAN, BOOLEAN>>: subtractAppliedForce per variable
 OtherF == p.otherF     \* <<o1, o2>> constant forces of other biases per variable (unscaled)
+Dev == p.dev           \* TRUE: follow the code's named deviation "ZeroTotal" instead of the documented behaviour
 
 VARIABLES it, rel, cont, started,
           lastX, lastSys, prevTotal, havePrev,
@@ -84,7 +85,7 @@ Calc(xraw, sys, newRel, newCont, deliver) ==
       measured == ~SameStep /\ newRel > 0 /\ deliver
       FtRaw(i) == IF SameStep THEN sys[i]
                   ELSE IF newRel > 0 THEN (IF deliver THEN prevTotal[i] ELSE 0) ELSE ft[i]
-      Ft1(i) == IF Sub[i] /\ measured THEN FtRaw(i) - fOld[i] ELSE FtRaw(i)
+      Ft1(i) == IF Sub[i] /\ measured /\ ~(Dev /\ FtRaw(i) = 0) THEN FtRaw(i) - fOld[i] ELSE FtRaw(i)
       ft1 == Pair(Ft1)
       fb == IF SameStep THEN x ELSE forceBin
       canAcc == newRel > 0 /\ ~newCont
@@ -170,7 +171,7 @@ SumS(S, i) == IF S = {} THEN 0 ELSE LET s == CHOOSE s \in S : TRUE IN SampleOf(s
 SamplesIn(b) == {s \in delivered : phys[s].bin = b}
 
 CountExact == \A b \in Bins2 : samples[b] = Cardinality(SamplesIn(b))
-SumExact == \A b \in Bins2 : \A i \in Dim : gsum[b][i] = -SumS(SamplesIn(b), i)
+SumExact == (Dev /\ quirk) \/ \A b \in Bins2 : \A i \in Dim : gsum[b][i] = -SumS(SamplesIn(b), i)
 \* every delivered step whose bin vector has ONE component outside is dropped entirely
 DroppedOutside == \A s \in delivered : (~InGrid(phys[s].bin)) => \A b \in Bins2 : s \notin SamplesIn(b)
 AppliedOK == started => abfF = BiasForce(bin, samples, gsum)
@@ -179,7 +180,7 @@ NoBiasZero == (~ApplyBias) => abfF = Zero2
 CapOK == Capped => \A i \in Dim : Abs(abfF[i]) <= MaxF[i] * D
 DeliveredOK == (~SameStep) => \A s \in delivered : s < it
 \* the applied force is minus the ramped per-dimension mean of the samples of the CURRENT bin (uncapped case)
-MeanOK == (started /\ InGrid(bin) /\ ApplyBias /\ ~Capped /\ samples[bin] >= FullS /\ samples[bin] > MinS)
+MeanOK == (~(Dev /\ quirk) /\ started /\ InGrid(bin) /\ ApplyBias /\ ~Capped /\ samples[bin] >= FullS /\ samples[bin] > MinS)
             => \A i \in Dim : abfF[i] * samples[bin] = -SumS(SamplesIn(bin), i)
 
 TypeOK == /\ samples \in [Bins2 -> Nat] /\ bin \in (-1..NB1) \X (-1..NB2)
